@@ -128,8 +128,8 @@ def run(E: Engine, rep: Report, tier: str) -> dict:
         same_ch = m is not None and _schedule_of_slot(m["Q_op"]) == m["Q_cs"]
         rep.check(m is not None and same_ch, "FLOW", f"_find_add_delay|op.tf+ramp-down|{kind}|{l.kind}", "the other channel's end is extended by the fall time (pulse) or 2*rise_time (non-pulse), evaluated for that channel and its EOM state",
                   f"`{sh(l.value)}` uses another channel's end without its own ramp-down (fall_time(<that channel>, in_eom_mode=<that channel's state>) for pulses, 2*rise_time otherwise): a pulse could start while the other is still ramping down", E.where(fad, l.node))
-    if not {("fall", "test"), ("rise", "test"), ("fall", "assign")} <= kinds:
-        rep.error(f"_find_add_delay: expected a fall-time test, a rise-time test and a fall-time update of the start time, found {sorted(kinds)}")
+    if n_uses < 3 or not {"test", "assign"} <= {k for _x, k in kinds}:
+        rep.error(f"_find_add_delay: expected tests on and an update from the other channels' slot ends, found {sorted(kinds)}")
     # start = max(t0, *phase barriers)
     slot = [l for l in Smn.calls("_TimeSlot") if l.fn == mn.short][-1]
     ti = arg(slot, 1, "ti")
